@@ -65,6 +65,11 @@ def linesAux : Str → Str → List Str
 
 def splitLines (s : Str) : List Str := linesAux s []
 
+/-- the text whose lines are `ls`, every line terminated by a newline -/
+def joinLines : List Str → Str
+  | [] => []
+  | l :: ls => l ++ '\n' :: joinLines ls
+
 def padLeft (w : Nat) (s : Str) : Str := List.replicate (w - s.length) ' ' ++ s
 def padRight (w : Nat) (s : Str) : Str := s ++ List.replicate (w - s.length) ' '
 
